@@ -893,13 +893,13 @@ hash_function_signature(FunctionRemap *remap) {
 
   if ((*hi).second != nullptr &&
       (*hi).second->_function_signature == remap->_function_signature) {
-    // The same function signature has already appeared.  This shouldn't
-    // happen.
-    nout << "Internal error!  Function signature "
-         << remap->_function_signature << " repeated!\n";
-    remap->_hash = hash;
-    abort();
-    return;
+    // The same function signature has already appeared: two overloads take
+    // the same arguments once default arguments are left out, as in
+    // f(int, bool = true) and f(int).  A call with these arguments is
+    // ambiguous in C++, so no wrapper can be written for it.
+    nout << "Error: overloads cannot be told apart when called as "
+         << remap->_function_signature << "\n";
+    exit(1);
   }
 
   // We have a conflict.  Extend both strings to resolve the ambiguity.
